@@ -223,9 +223,22 @@ fn death_reason(st: &std::process::ExitStatus) -> String {
 struct Range {
     lo: u64,
     hi: u64,
+    #[allow(dead_code)]
     skip: Vec<u64>,
     out: PathBuf,
 }
+
+/// Result of one profile's batch: worker outputs, one record per process death, and the
+/// number of jobs abandoned because processes kept dying.
+struct ProfileRun {
+    outs: Vec<WorkerOut>,
+    deaths: Vec<VioRec>,
+    abandoned: u64,
+}
+
+/// How many process deaths are investigated per profile before the remainder of a dying
+/// range is abandoned (the batch is already a failed one by then).
+const MAX_DEATHS: usize = 6;
 
 fn run_profile<P: Property>(
     bin: &Path,
@@ -235,25 +248,24 @@ fn run_profile<P: Property>(
     workers: u64,
     work: &Path,
     plan: &Plan,
-) -> Result<(Vec<WorkerOut>, Vec<VioRec>), String> {
+) -> Result<ProfileRun, String> {
     let blocks = plan.total.div_ceil(BLOCK);
     let n = workers.min(blocks).max(1);
-    let mut ranges: Vec<Range> = (0..n)
-        .map(|i| {
-            let lo = (blocks * i / n) * BLOCK;
-            let hi = ((blocks * (i + 1) / n) * BLOCK).min(plan.total);
-            Range { lo, hi, skip: vec![], out: work.join(format!("{}-{profile}-{i}.json", P::ID)) }
-        })
+    let mut next_id = 0u64;
+    let mut mk = |lo: u64, hi: u64| {
+        next_id += 1;
+        Range { lo, hi, skip: vec![], out: work.join(format!("{}-{profile}-{}.json", P::ID, next_id)) }
+    };
+    let mut pending: Vec<Range> = (0..n)
+        .map(|i| mk((blocks * i / n) * BLOCK, ((blocks * (i + 1) / n) * BLOCK).min(plan.total)))
+        .filter(|r| r.lo < r.hi)
         .collect();
-    let mut outs = Vec::new();
-    let mut deaths = Vec::new();
-    let mut pending: Vec<usize> = (0..ranges.len()).collect();
+    let mut run = ProfileRun { outs: vec![], deaths: vec![], abandoned: 0 };
     while !pending.is_empty() {
         let mut children = Vec::new();
-        for &ri in &pending {
-            let r = &ranges[ri];
+        for r in pending.drain(..) {
             let _ = fs::remove_file(&r.out);
-            let mut a: Vec<String> = vec![
+            let a: Vec<String> = vec![
                 "worker".into(),
                 P::ID.into(),
                 tier.into(),
@@ -263,20 +275,14 @@ fn run_profile<P: Property>(
                 r.hi.to_string(),
                 r.out.to_string_lossy().into_owned(),
             ];
-            if !r.skip.is_empty() {
-                a.push("--skip".into());
-                a.push(r.skip.iter().map(|x| x.to_string()).collect::<Vec<_>>().join(","));
-            }
             let child = limited(bin, &a).stdout(Stdio::null()).stderr(Stdio::piped()).spawn().map_err(|e| format!("spawn worker: {e}"))?;
-            children.push((ri, child));
+            children.push((r, child));
         }
-        let mut again = Vec::new();
-        for (ri, child) in children {
+        for (r, child) in children {
             let o = child.wait_with_output().map_err(|e| format!("wait worker: {e}"))?;
-            let r = &mut ranges[ri];
             if o.status.success() && r.out.exists() {
                 let w: WorkerOut = serde_json::from_slice(&fs::read(&r.out).map_err(|e| e.to_string())?).map_err(|e| format!("worker output {}: {e}", r.out.display()))?;
-                outs.push(w);
+                run.outs.push(w);
                 continue;
             }
             // the process running real code died: find the job it was on
@@ -292,7 +298,7 @@ fn run_profile<P: Property>(
             };
             let (scn, kind, _) = plan.job::<P>(seed, index);
             let stderr = String::from_utf8_lossy(&o.stderr);
-            deaths.push(VioRec {
+            run.deaths.push(VioRec {
                 index,
                 kind: kind.to_string(),
                 profile: profile.to_string(),
@@ -303,15 +309,21 @@ fn run_profile<P: Property>(
                     format!("the process running the scenario died ({}); stderr: {}", death_reason(&o.status), truncate(stderr.trim(), 300)),
                 )],
             });
-            r.skip.push(index);
-            if r.skip.len() > 12 {
-                return Err(format!("worker for {}..{} died more than 12 times; giving up", r.lo, r.hi));
+            // the part before the fatal job completes (it just did); the part after it is
+            // explored separately — until too many processes have died
+            if r.lo < index {
+                pending.push(mk(r.lo, index));
             }
-            again.push(ri);
+            if index + 1 < r.hi {
+                if run.deaths.len() < MAX_DEATHS {
+                    pending.push(mk(index + 1, r.hi));
+                } else {
+                    run.abandoned += r.hi - index - 1;
+                }
+            }
         }
-        pending = again;
     }
-    Ok((outs, deaths))
+    Ok(run)
 }
 
 // ---------------------------------------------------------------------------
@@ -583,12 +595,14 @@ fn run_inner<P: Property>(args: &[String]) -> Result<i32, String> {
     let mut samples: Vec<Sample> = Vec::new();
     let mut self_check: Vec<String> = Vec::new();
     let mut digest = Fnv::default();
+    let mut abandoned_jobs = 0u64;
     let mut sweeps_desc = Vec::new();
     for (profile, bin) in &profiles {
         let plan = plan::<P>(&tier, profile, seed);
         sweeps_desc.push(json!({"profile": profile, "search_jobs": plan.search, "sweep_base_files": plan.bases.len(),
             "sweep_jobs": plan.total - plan.search, "base_file_bytes": plan.bases.iter().map(|b| b.bytes.len()).collect::<Vec<_>>() }));
-        let (outs, deaths) = run_profile::<P>(bin, profile, &tier, seed, workers, &work, &plan)?;
+        let ProfileRun { outs, deaths, abandoned } = run_profile::<P>(bin, profile, &tier, seed, workers, &work, &plan)?;
+        abandoned_jobs += abandoned;
         let mut pstats = Stats::default();
         let mut blocks: Vec<(u64, u64)> = Vec::new();
         for o in outs {
@@ -756,6 +770,7 @@ fn run_inner<P: Property>(args: &[String]) -> Result<i32, String> {
             "violation_classes": reported,
             "known_findings_seen": known_lines.iter().map(|(k, v)| json!({"id": k, "occurrences": v.1})).collect::<Vec<_>>(),
             "workers": workers,
+            "jobs_abandoned_after_repeated_process_deaths": abandoned_jobs,
         },
         "assumptions": [
             "std::io adapter types and core's decimal<->float conversion are correct (trusted base)",
